@@ -31,7 +31,10 @@ JudgeAff(rec) ==
     LET c == rec.c
         M == AffMatrix(c)
         badm == {r \in 1..Len(rec.mats) : ~MatOK(c, M, rec.mats[r].mat)}
-        badh == {r \in 1..Len(rec.hists) : ~HistoryOK(c, M, rec.hists[r].matches)}
+        \* local_concurrences has no psi option: its histories are judged on the matrix without relaxation
+        c0 == [c EXCEPT !.psi = <<0, 0, 0, 0>>]
+        M0 == AffMatrix(c0)
+        badh == {r \in 1..Len(rec.hists) : ~HistoryOK(c0, M0, rec.hists[r].matches)}
     IN IF ~ExactRegime(c) THEN Fail(rec.id, "harness:case-outside-exact-regime")
        ELSE IF badm # {} THEN Fail(rec.id, rec.mats[SetMin(badm)].route)
        ELSE IF badh # {} THEN Fail(rec.id, rec.hists[SetMin(badh)].route)
